@@ -314,6 +314,12 @@ JSON_DOCS = [b'{}', b'[]', b'""', b'"a\\"b"', b'"\\\\"', b'{"a":"}"}', b'[[1],{"
              b'\t{"a"\r:\n1 } \n', b'{]', b'["]"]', b'"\xc3\xa9"', b'"\xff"', b'[1,]', b'\x7f1', b'~', b'1\x001']
 
 
+# (stream, length of its longest document)
+JSON_STREAMS = [(b'{}[]', 2), (b'"}"[1]', 3), (b'1\n[2]', 3), (b'[1]2\n"a"', 3), (b'"\\""{}', 4), (b'[[]]{}""', 4),
+                (b'"[{"1\n', 4), (b'{"a":"]"}', 9), (b'"a\\"b"[]', 6), (b'true\n-1\n{}', 5), (b'[""]"\\\\"', 4),
+                (b'{"[":[]}1\n', 8), (b'"]"[["["]]', 7), (b'0\n0\n""[]', 2), (b'[{}]"\\"]"', 5)]
+
+
 def framing_cases(tier, rng, thorough):
     """work item (1): raw JSON and generic framers against every chunking of small inputs"""
     jraw = BY_NAME["jsonraw"]
@@ -334,6 +340,23 @@ def framing_cases(tier, rng, thorough):
             c = Cfg("jsonraw", 2, [limit], [b"jsonraw"], limit=limit)
             for ch in chs[:: (1 if thorough else 4)]:
                 yield _case(c, d, ch, 0, ["framing", "jsonraw-all-modes"])
+    # multi-document raw-JSON streams (the send side of JSONSerializer(use_lines=False): enclosures as they are, plain
+    # values followed by a newline): strings holding brackets / quotes / escapes, nested enclosures, plain values
+    # between enclosures -- every chunking (C01 json_roundtrip is about exactly these)
+    for stream, maxdoc in JSON_STREAMS:
+        n = len(stream)
+        if n <= 8 or thorough:
+            chs = list(sc.all_chunkings(stream))
+        else:
+            masks = {rng.randrange(1 << (n - 1)) for _ in range(96)} | {0, (1 << (n - 1)) - 1}
+            chs = [[c for c in sc.cuts_to_chunks(stream, [i + 1 for i in range(n - 1) if m >> i & 1])] for m in sorted(masks)]
+        for limit in (100, maxdoc):
+            for ch in chs:
+                inp = s2.make_simple_case(4, [limit], [b"jsonraw"], ch)
+                d1 = dict(input=inp, tags=["framing", "jsonraw-multidoc", "all-chunkings" if (n <= 8 or thorough) else "sampled-chunkings"],
+                          nontrivial=len(ch) > 1)
+                _YIELDED.append(d1)
+                yield d1
     streams = [b"\x02ab\x01c", b"\x03!ab\x01c", b"\x02?b\x01c", b"\x05abc", b"\x00\x00\x01a", b"\x02ab" * 3, b"\x01!\x01a", b"\x04ab",
                b"\x04!abc\x01z"]
     for variant in (b"eager", b"lazy", b"back1", b"seek1"):
